@@ -1,33 +1,43 @@
 ----------------------------- MODULE BimgTrace -----------------------------
-(* TV form: one trace per executed case.  The header of a trace gives table and case, the events  *)
-(* are what the executor saw in the bytes exported by the real BootableImage and what the real    *)
-(* parser returned.  Every step must be the reader's next action with exactly the logged numbers. *)
-EXTENDS Bimg
+(* TV form: one trace per executed case or history.  The header of a trace gives table and the    *)
+(* case the object was created with, the events are what the executor did to the real             *)
+(* BootableImage (changes of the live object), what it saw in the bytes exported by it and what    *)
+(* the real parser returned.  Every step must be the next action of Bimg / BimgHist with exactly   *)
+(* the logged numbers; after every change the reader walks the image of the CURRENT case.          *)
+EXTENDS BimgHist
 Traces == ndJsonDeserialize(IOEnv.TRACE_FILE)
 VARIABLES tid, l
-tvars == <<tb, cs, ph, cur, nx, act, tid, l>>
+tvars == <<tb, cs, ph, cur, nx, act, hn, seen, pp, tid, l>>
 T == Traces[tid].ev
 E == T[l]
 Is(e) == l <= Len(T) /\ E.ev = e
 Adv == l' = l + 1 /\ UNCHANGED tid
 TInit == /\ tid \in 1..Len(Traces) /\ l = 1 /\ tb = Traces[tid].tb
          /\ cs = [present |-> Traces[tid].present, plen |-> Traces[tid].plen, req |-> Traces[tid].req]
-         /\ ph = "new" /\ cur = 0 /\ nx = 0 /\ act = [a |-> "Init"] /\ TLCSet(tid, 1)
+         /\ ph = "new" /\ cur = 0 /\ nx = 0 /\ act = [a |-> "Init"]
+         /\ hn = 0 /\ seen = Mat([i \in DOMAIN Traces[tid].present |-> FALSE]) /\ pp = Mat([i \in DOMAIN Traces[tid].present |-> 0])
+         /\ TLCSet(tid, 1)
 \* the build is refused exactly when nothing lies behind the requested start; otherwise the image starts where InitSnap says
-TBuild == /\ Is("Build") /\ (Refuse \/ Build) /\ act'.refused = E.refused /\ (~E.refused => act'.eff = E.eff) /\ Adv
+TBuild == /\ Is("Build") /\ (HRefuse \/ HBuild) /\ act'.refused = E.refused /\ (~E.refused => act'.eff = E.eff) /\ Adv
 \* bytes between two segments: exactly the predicted range, all of them the device pattern
-TGap == /\ Is("Gap") /\ Gap /\ E.from = act'.from /\ E.to = act'.to /\ E.pat /\ Adv
+TGap == /\ Is("Gap") /\ HGap /\ E.from = act'.from /\ E.to = act'.to /\ E.pat /\ Adv
 \* the next included segment: its payload is found at the cursor, complete, and the API reports the same offset and length
-TSeg == /\ Is("Seg") /\ Seg /\ E.i = act'.i /\ E.at = act'.at /\ E.len = act'.len /\ E.ok
+TSeg == /\ Is("Seg") /\ HSeg /\ E.i = act'.i /\ E.at = act'.at /\ E.len = act'.len /\ E.ok
         /\ E.apiOff = E.at /\ E.apiLen = E.len /\ Adv
-TEnd == /\ Is("End") /\ End /\ E.total = act'.total /\ E.apiLen = act'.total /\ Adv
-TParse == /\ Is("Parse") /\ Parse /\ E.ok /\ Adv
+TEnd == /\ Is("End") /\ HEnd /\ E.total = act'.total /\ E.apiLen = act'.total /\ Adv
+TParse == /\ Is("Parse") /\ HParse /\ E.ok /\ Adv
 \* the parsed segment starts with the supplied bytes; anything behind them is fill
-TPSeg == /\ Is("PSeg") /\ ParseSeg /\ E.i = act'.i
+TPSeg == /\ Is("PSeg") /\ HParseSeg(E.plen) /\ E.i = act'.i
          /\ (act'.asserted => E.present /\ E.prefixOk /\ E.tailPat /\ E.plen >= SegLen(E.i))
          /\ Adv
-TDone == /\ Is("Done") /\ Done /\ Adv
-TNext == TBuild \/ TGap \/ TSeg \/ TEnd \/ TParse \/ TPSeg \/ TDone
+TDone == /\ Is("Done") /\ HDone /\ Adv
+\* ---- the live object is changed: the setter is not refused and the object reports the start the R-spec computes
+TSetInit == /\ Is("SetInit") /\ ~E.refused /\ HSetInit(E.req) /\ act'.eff = E.eff /\ Adv
+TSetSeg == /\ Is("SetSeg") /\ HSetSeg(E.i, E.len) /\ Adv
+TClearSeg == /\ Is("ClearSeg") /\ HClearSeg(E.i) /\ Adv
+TExport == /\ Is("Export") /\ HExport /\ act'.eff = E.eff /\ Adv
+TReparse == /\ Is("Reparse") /\ HReparse /\ act'.eff = E.eff /\ Adv
+TNext == TBuild \/ TGap \/ TSeg \/ TEnd \/ TParse \/ TPSeg \/ TDone \/ TSetInit \/ TSetSeg \/ TClearSeg \/ TExport \/ TReparse
 Constr == IF TLCGet(tid) < l THEN TLCSet(tid, l) ELSE TRUE
 Post == \A i \in 1..Len(Traces) :
           \/ TLCGet(i) - 1 = Len(Traces[i].ev)
